@@ -1,5 +1,9 @@
 """C17 - generate() forgets the object's past.
 
+Fifth round (`interrupted_calls`; family in harness/v2_util.py): a BaseException (KeyboardInterrupt, SystemExit,
+GeneratorExit) raised at a drawn point inside generate(), simulate() or write_epw() and caught by the caller is part of the
+past that the next generate() must forget.
+
 Fourth round (`circumstances`; interpreter in harness/u2_util.py): histories run in FRESH interpreters (python and
 python -O) and judged against a new object in a fresh plain interpreter - a past kept at class level pollutes a new object
 of the same process as well -, with other models alive, with observers, through the command line; the digest of all
@@ -882,6 +886,18 @@ def circumstances(chk, work, uwg):
                'after every operation and must never change' % len(mem), mismatches=bad, branches=br)
 
 
+# ----------------------------------------------------------------------------------------------------------
+# Fifth round: calls that are INTERRUPTED. The failing calls of the third round all end in an Exception; a user who
+# presses Ctrl-C, an observer calling sys.exit(), a generator being closed leave a call through a BaseException - code
+# written as `except Exception:` (instead of `finally:`) does not see them. Family in harness/v2_util.py.
+def interrupted_calls(chk, uwg):
+    import v2_util as V
+    n, bad, br, points = V.interrupt_ties(chk, uwg)
+    chk.direct('interrupted-call-histories-vs-fresh(KeyboardInterrupt / SystemExit / GeneratorExit inside generate, simulate, write_epw)',
+               n, n, V.INTERRUPT_RULE + ' (interruption points of a 1-day run: %s)' % ', '.join(
+                   '%s() %d' % kv for kv in sorted(points.items())), mismatches=bad, branches=br)
+
+
 def run(chk):
     from props import generate
     chk.proof(MODULE, THEOREMS + generate.THEOREMS, extra_modules=[generate.MODULE])
@@ -899,12 +915,17 @@ def run(chk):
               [('gen',), ('setp', 'epw_path', 'B'), ('gen',), ('sim',)],
               [('setp', 'month', 7), ('gen',), ('sim',), ('setp', 'month', 1), ('setp', 'droad', 0.25), ('gen',), ('sim',)]]
     hist = corpus + [gen_history(rng, with_params=(k % 2 == 1)) for k in range(nh)]
-    cases, bad, nsim = [], 0, 0
+    cases, bad, bad2, nsim = [], 0, 0, 0
     for h in hist:
         m = base_model(work)
         tr = Tracker(uwg, 0)
         trace, texts = [], []
-        for op in h:
+        state_m = None
+        for k, op in enumerate(h):
+            if k == len(h) - 1:
+                # (every history ends in generate; simulate: this is the state right after the last generate - taken
+                #  here instead of re-running every history a second time for it, which cost 7 s of the quick tier)
+                state_m = U.model_state(m)
             apply_op(m, tr, op)
             nsim += op[0] == 'sim'
             if op[0] != 'setp':
@@ -918,8 +939,14 @@ def run(chk):
             setattr(f, p, getattr(m, p))
         with core.quiet():
             f.generate()
-        # state after the last generate is not observable any more on m (it has simulated);
-        # compare the simulation results bit for bit
+        # state digest right after generate: history then generate vs fresh generate
+        if state_m != U.model_state(f):
+            bad2 += 1
+            chk.violation('impl-violation', 'generate_depends_on_params_only: state digest after generate',
+                          case={'history': [list(o) for o in h[:-1]]},
+                          observed='state after history+generate differs from fresh generate',
+                          expected='identical digests of BEM, Sch, road, rural, UCM, UBL, RSM, forcing, clock')
+        # the simulation results bit for bit
         with core.quiet():
             f.simulate()
         if U.records(f) != U.records(m):
@@ -942,30 +969,14 @@ def run(chk):
                'final generate;simulate of every history vs a fresh object with the same current parameters: '
                'hourly records bit-identical (%d real 1-day simulations)' % (nsim + len(hist)),
                mismatches=bad)
-    # state digest right after generate (separate, cheap): history then generate vs fresh generate
-    bad2 = 0
-    for h in hist:
-        m = base_model(work)
-        tr = Tracker(uwg, 0)
-        for op in h[:-1]:
-            apply_op(m, tr, op)
-        f = base_model(work)
-        for p in PARAMS:
-            setattr(f, p, getattr(m, p))
-        with core.quiet():
-            f.generate()
-        if U.model_state(m) != U.model_state(f):
-            bad2 += 1
-            chk.violation('impl-violation', 'generate_depends_on_params_only: state digest after generate',
-                          case={'history': [list(o) for o in h[:-1]]},
-                          observed='state after history+generate differs from fresh generate',
-                          expected='identical digests of BEM, Sch, road, rural, UCM, UBL, RSM, forcing, clock')
     chk.direct('state-after-generate(digest)', len(hist), len(hist),
-               'deep bit-exact digest of every object a simulation starts from, after history+generate vs fresh',
+               'deep bit-exact digest of every object a simulation starts from, after history+generate vs fresh '
+               '(taken on the same objects, right before the final simulate)',
                mismatches=bad2)
     extended_histories(chk, work, uwg)
     third_round_histories(chk, work, uwg)
     circumstances(chk, work, uwg)
+    interrupted_calls(chk, uwg)
     chk.assumptions.append('the physics is uninterpreted in the theorem (any machine); the tie checks that the '
                            'real generate() has the modelled shape (reload pristine library, apply current '
                            'parameters) on generated histories')
